@@ -96,13 +96,14 @@ fn c03_o4p_signed_announce_request() {
 //@ cap: 900
 //@ also: C03 C05
 //@ desc: malformed key lengths are rejected without panic and without any verification (key length in {0, 31, 33}) on both the request and the response path
-//@ bounds: key lengths 0, 31, 33 (one concrete call each), concrete contents, well-formed 64-byte signature, request/response path symbolic; unwind 130
-//@ stubs: verify -> oracle (never reached); system_time -> symbolic
+//@ bounds: key lengths 0, 31, 33 (one concrete call each), concrete contents, well-formed 64-byte signature, request/response path symbolic; unwind 34
+//@ stubs: verify -> oracle (never reached); system_time -> symbolic; VerifyingKey::from_bytes (point decompression) -> flagged cut: a key of the wrong length must be refused before it
 //@ functions: SignedAnnounce::from_dht_message, VerifyingKey::try_from (length check)
 #[kani::proof]
 #[kani::stub(<ed25519_dalek::VerifyingKey as ed25519_dalek::Verifier<ed25519_dalek::Signature>>::verify, oracle::verify_stub)]
 #[kani::stub(system_time, wall::system_time)]
-#[kani::unwind(130)]
+#[kani::stub(ed25519_dalek::VerifyingKey::from_bytes, oracle::from_bytes_cut)]
+#[kani::unwind(34)]
 fn c02_o2b_signed_announce_key_lengths() {
     oracle::arm(0, true);
     wall::set(0);
@@ -118,6 +119,7 @@ fn c02_o2b_signed_announce_key_lengths() {
     assert!(oracle::asked() == 0, "C02.O2b nothing verified for malformed lengths");
     kani::cover!(req);
     kani::cover!(!req);
+    assert!(!crate::verif_env::cut_reached(), "CUT: point decompression reached for a key of the wrong length");
     std::mem::forget(r0);
     std::mem::forget(r1);
     std::mem::forget(r2);
